@@ -62,8 +62,20 @@ def run(chk, cfgname, pid="C13", want=None):
     vlib.log("[%s] %s: %d scenarios in %.1fs" % (pid, cfgname, len(recs), res.wall))
     jobs, meta = [], []
     for i, r in enumerate(recs):
-        for v, strat, extra in (("slice", "slice", None), ("reader1", "reader", {"fallback": 1}), ("file", "file", None)):
+        for v, strat, extra in (("slice", "slice", None), ("reader1", "reader", {"fallback": 1}), ("file", "file", None),
+                                ("reader_heap_intr", "reader", {"fallback": 2})):
             if v == "file" and i % 5:
+                continue
+            if v == "reader_heap_intr":
+                # a heap limit that just suffices and an Interrupted read after the first bytes: the search either goes on
+                # (retry) or returns the error after a prefix of the results; it must not end quietly with less
+                if i % 4 != vlib.seed() % 4 or r["scn"]["stopAt"] or r["scn"]["errAt"] or len(r["scn"]["inp"]) < 3:
+                    continue
+                j = to_job(r, strat, extra)
+                j["heap_limit"] = len(j["scn"]["inp"]) + 4
+                j["scn"] = dict(j["scn"], faultAt=2 + i % 2, faultKind="intr")
+                jobs.append(j)
+                meta.append((i, v))
                 continue
             jobs.append(to_job(r, strat, extra))
             meta.append((i, v))
@@ -72,8 +84,14 @@ def run(chk, cfgname, pid="C13", want=None):
     for (i, v), j, o in zip(meta, jobs, obs):
         r = recs[i]
         inp = bytes(j["scn"]["inp"])
-        fake = {"scn": j["scn"], "ref": expand(r["ref"], inp), "reads": []}
-        why = sc.judge(fake, dict(o, out=expand(o["out"], inp)))
+        fake = {"scn": dict(j["scn"], faultAt=0), "ref": expand(r["ref"], inp), "reads": []}
+        if v == "reader_heap_intr" and o["result"] != "ok":
+            got = [sc.ev_key(e) for e in expand(o["out"], inp)]
+            ref = [sc.ev_key(e) for e in fake["ref"] if e["k"] != "finish"]
+            why = None if ("injected-read" in str(o["result"]) and got == ref[:len(got)]) else \
+                "the interrupted read ended the search with %r and a stream that is not a prefix of the reference" % (o["result"],)
+        else:
+            why = sc.judge(fake, dict(o, out=expand(o["out"], inp)))
         if why:
             chk.violation(mech(r, v), {"why": why, "scenario": j, "reference": r["ref"], "observed": o, "driver": "replay_search"})
         else:
